@@ -179,12 +179,23 @@ class BaseOverlay:
                 collection = HandlerCollection(handlers)
             else:
                 collection = curr.plus(handlers)
-            self.reset = HandlerCollection.current.set(collection)
+            HandlerCollection.current.set(collection)
             return collection
 
     def __exit__(self, typ, exc, tb):
         if self.handlers:
-            HandlerCollection.current.reset(self.reset)
+            # Remove exactly what __enter__ added (most recent occurrence),
+            # so that overlays and global probes may end in any order.
+            curr = HandlerCollection.current.get()
+            pairs = list(curr.handler_pairs) if curr is not None else []
+            for handler in self.handlers:
+                for i in range(len(pairs) - 1, -1, -1):
+                    if pairs[i][1] is handler:
+                        del pairs[i]
+                        break
+            HandlerCollection.current.set(
+                HandlerCollection(pairs) if pairs else None
+            )
 
 
 class Overlay(BaseOverlay):
